@@ -170,6 +170,18 @@ theorem totalWeight_transpose (n : Nat) (A : Nat → Nat → Rat) :
   simp only [sumTo_eq]
   exact sum_comm
 
+theorem getProbs_degree_out (n : Nat) (A : Nat → Nat → Rat) (pr : Nat → Rat)
+    (h : getProbs n .degree A = .ok pr) : pr = fun i => outDeg n A i / totalWeight n A :=
+  getProbs_degree n A pr h
+
+theorem getProbs_degree_in (n : Nat) (A : Nat → Nat → Rat) (pc : Nat → Rat)
+    (h : getProbs n .degree (fun i j => A j i) = .ok pc) : pc = fun j => inDeg n A j / totalWeight n A := by
+  rw [getProbs_degree _ _ _ h]
+  funext j
+  show sumTo n (fun i => A i j) / (sumTo n fun i => sumTo n fun j => A j i) = _
+  rw [totalWeight_transpose]
+  rfl
+
 /-- what a successful call of the model went through -/
 theorem getModularity_ok (nRow nCol nnz : Nat) (B : Nat → Nat → Rat) (labels : List Int)
     (labelsCol : Option (List Int)) (weights : Weights) (γ : Rat) (o : ModOut)
